@@ -118,6 +118,17 @@ abbrev Cache := List CacheKey
 /-- `jit_cached_compile`: compile on a miss, reuse on a hit -/
 def Cache.lookupOrCompile (c : Cache) (k : CacheKey) : Cache := if k ∈ c then c else k :: c
 
+/-- identity of the compiled class the cache returns for a key: its rank in order of compilation -/
+def Cache.idOf (c : Cache) (k : CacheKey) : Option Nat :=
+  if k ∈ c then some (c.length - 1 - c.idxOf k) else none
+
+/-- a sequence of `jit_cached_compile` requests from an empty cache: the identity of the class
+    returned by each request -/
+def cacheIds (reqs : List CacheKey) : List (Option Nat) :=
+  (reqs.foldl (fun (st : Cache × List (Option Nat)) k =>
+      let c' := Cache.lookupOrCompile st.1 k
+      (c', st.2 ++ [Cache.idOf c' k])) ([], [])).2
+
 /-- one `fit`: `compiled_clone` looks the class up (or compiles it) and builds a *fresh instance*
     from `params_to_dict()`, so what the solver computes is a function of the arguments only -/
 def fitOnce {Args R : Type} (solve : Args → R) (c : Cache) (k : CacheKey) (args : Args) :
